@@ -152,6 +152,17 @@ def _kron_akd_eig(ctx, n, batch, p):
     return O.KroneckerProductAddedDiagLinearOperator(K, D), kron_ref(A, B_) + kron_ref(diag_ref(a), diag_ref(b_))
 
 
+@builder("KroneckerAddedKronConstDiagEig", psd=True, pd=True, tags=("eig",))
+def _kron_akcd_eig(ctx, n, batch, p):
+    A, wa, _ = eig_from(ctx, p + "EA")
+    B_, wb, _ = eig_from(ctx, p + "EB")
+    a = ctx.leaf(p + "a", (1,), positive=True)
+    b_ = ctx.leaf(p + "b", (1,), positive=True)
+    K = O.KroneckerProductLinearOperator(A, B_)
+    D = O.KroneckerProductDiagLinearOperator(O.ConstantDiagLinearOperator(a, diag_shape=2), O.ConstantDiagLinearOperator(b_, diag_shape=2))
+    return O.KroneckerProductAddedDiagLinearOperator(K, D), kron_ref(A, B_) + kron_ref(diag_ref(a.expand(2)), diag_ref(b_.expand(2)))
+
+
 @builder("Diag", psd=True, pd=True)
 def _diag(ctx, n, batch, p):
     d = ctx.leaf(p + "d", batch + (n,), positive=True)
